@@ -192,8 +192,6 @@ structure Cfg where
   /-- `type_id in ALWAYS_NULL` -/
   alwaysNull : Bool := false
   allowInvalid : Bool := false
-  /-- a `setter_callback` is installed -/
-  hasSetter : Bool := true
   deriving DecidableEq, Repr
 
 /-- One shipped definition (row of characteristics.json). -/
